@@ -707,6 +707,15 @@ func RunC18(t *kernel.Tape, o Opts) *Result {
 				key.VersionType = resolve.Requirement
 				key.Version = []string{"*", "^1.0.0", "latest", r.Version}[t.Choose(4)]
 			}
+			if t.Bool(1, 8) {
+				// something the service does not have: a version nobody
+				// published, or a package nobody mentions
+				if t.Bool(1, 2) {
+					key.Name = "no-such-package"
+				} else if kind != "MatchingVersions" {
+					key.Version = "0.0.7"
+				}
+			}
 			return &c18Op{Kind: kind, Key: key}
 		}
 	}
